@@ -10,7 +10,9 @@ P="$V/seeded/$id/patch.diff"
 [ -f "$P" ] || { echo "no $P"; exit 2; }
 R=$(mktemp -d "${TMPDIR:-/tmp}/seededrepo.XXXXXX"); trap 'rm -rf "$R"' EXIT
 rsync -a --exclude .git /repo/ "$R"/
-( cd "$R" && git apply "$P" ) || { echo "$id: patch does not apply to /repo's working tree"; exit 2; }
+# patches were written against the /repo HEAD of their time; later fix: commits move their context, so a
+# patch that git does not take is retried with GNU patch and a small fuzz
+( cd "$R" && { git apply "$P" 2>/dev/null || patch -p1 -F3 --no-backup-if-mismatch < "$P" >/dev/null 2>&1; } ) || { echo "$id: patch does not apply to /repo's working tree"; exit 2; }
 out="$V/seeded/$id/last_run.txt"; : > "$out"
 if [ "${SKIP_SUITE:-}" != 1 ]; then
   if ( cd "$R" && GOFLAGS=-mod=mod GOPROXY=off go build ./... && GOFLAGS=-mod=mod GOPROXY=off go test -vet=off -count=1 ./... >"$R/.suite.log" 2>&1 ); then
